@@ -39,6 +39,16 @@ from insights.specs import Specs
 from insights.formats import render as render_rule_content
 from insights.formats._json import JsonFormat, JsonFormatterAdapter
 from insights.formats._yaml import YamlFormat, YamlFormatterAdapter
+import contextlib
+import re
+import zlib
+
+# the text formatter binds sys.stdout as its default stream when the module is imported (and prints a hint about
+# colorama): import it with stdout pointing at a sink, so that what HumanReadableFormatAdapter.preprocess prints before
+# the harness can redirect the formatter's stream does not end up in the check's own output
+_TEXT_SINK = io.StringIO()
+with contextlib.redirect_stdout(_TEXT_SINK):
+    from insights.formats import text as text_format
 
 KNOWN_SKIP_STUB = "skip-stub-anonymous"
 LIMIT_KEY = "max_detail_length"
@@ -407,6 +417,138 @@ def steer_limit(rng, act):
     except Exception:
         L = 40
     return max(0, rng.choice([L - 1, L, L + 1, L - 1, L, L + 7, L - 20, 65535, 0, L * 2]))
+
+
+# --------------------------------------------------------------------------- wide values (oracle only)
+
+class StrKey(str):
+    """a key that is a str without being exactly str"""
+
+
+class Opaque(object):
+    """a value json cannot serialise; its repr is what counts for the size limit"""
+    def __init__(self, text):
+        self.text = text
+
+    def __repr__(self):
+        return self.text
+
+    def __eq__(self, other):
+        return isinstance(other, Opaque) and other.text == self.text
+
+    __hash__ = None
+
+
+def wide_value(spec):
+    """value specs (JSON, for the replay): plain JSON values stand for themselves; {"f": x} float, {"b": hex} bytes,
+    {"t": [...]} tuple, {"s": x} one-element set, {"d": [[k, v], ...]} dict, {"o": text} Opaque, {"x": n} 'x' * n,
+    {"k": text} StrKey"""
+    if isinstance(spec, list):
+        return [wide_value(x) for x in spec]
+    if isinstance(spec, dict):
+        (tag, v), = spec.items()
+        if tag == "f":
+            return float(v)
+        if tag == "b":
+            return bytes.fromhex(v)
+        if tag == "t":
+            return tuple(wide_value(x) for x in v)
+        if tag == "s":
+            return {wide_value(v)}
+        if tag == "d":
+            return {wide_value(k): wide_value(x) for k, x in v}
+        if tag == "o":
+            return Opaque(v)
+        if tag == "x":
+            return "x" * v
+        if tag == "k":
+            return StrKey(v)
+        raise ValueError(tag)
+    return spec
+
+
+def gen_wide(rng, depth=0):
+    r = rng.random()
+    if depth < 3 and r < 0.3:
+        return [gen_wide(rng, depth + 1) for _ in range(rng.randint(0, 3))]
+    if depth < 3 and r < 0.5:
+        return {"d": [[rng.choice(["a", "b", 1, "é", "\U0001f600", {"f": 0.5}, None]), gen_wide(rng, depth + 1)]
+                      for _ in range(rng.randint(0, 3))]}
+    if depth < 3 and r < 0.6:
+        return {"t": [gen_wide(rng, depth + 1) for _ in range(rng.randint(0, 3))]}
+    return rng.choice([{"f": 0.1}, {"f": 1e+300}, {"f": "nan"}, {"f": "-inf"}, {"b": ""}, {"b": "00ff27"}, {"s": 3},
+                       {"o": "<obj at 0x1>"}, {"o": ""}, {"o": "é" * 5}, "\U0001f600\u0301", "\udc80", "\x00",
+                       None, True, 0, -1, 2 ** 70, "", "q'\"", {"k": "sub"}, gen_str(rng, 6)])
+
+
+def wide_act(c):
+    cls = GENERIC[c["cls"]] if c["cls"] in GENERIC else {"make_metadata": plugins.make_metadata}[c["cls"]]
+    return cls, wide_value(c["key"]), [(k, wide_value(v)) for k, v in c["kw"]]
+
+
+def run_wide(c):
+    """(violation or None, tag): the constructor on values of every shape, held to the same oracle statement as the
+    modelled constructors — with the configured limit (limit None = settings untouched, payload around 65535)"""
+    cls, key, kw = wide_act(c)
+    limit = c["limit"] if c["limit"] is not None else 65535
+    try:
+        if c["limit"] is None:
+            r = cls(**dict(kw)) if cls is plugins.make_metadata else cls(key, **dict(kw))
+        else:
+            with Limit(limit):
+                r = cls(**dict(kw)) if cls is plugins.make_metadata else cls(key, **dict(kw))
+        out = ("ok", dict(r))
+    except ValidationException as e:
+        out = ("err", verr_kind(e))
+    except Exception as e:
+        out = ("exc", type(e).__name__)
+    key_ = None if cls is plugins.make_metadata else key
+    invalid = spec_invalid(cls, key_, kw)
+    tag = out[0] if out[0] != "ok" else ("stub" if "max_detail_length_error" in out[1] else "full")
+    if invalid:
+        return ("an invalid response was accepted: %s(%r, **%s) -> %s" % (cls.__name__, key, repr(dict(kw))[:300], repr(out[1])[:300])
+                if out[0] == "ok" else None), tag
+    if out[0] != "ok":
+        return "a valid response was rejected: %s(%r, **%s) -> %r" % (cls.__name__, key, repr(dict(kw))[:300], out[1]), tag
+    full = full_dict(cls, key_, kw)
+    length = len(str(full))
+    if length > limit:
+        stub = {"type": cls.response_type, "max_detail_length_error": length}
+        if cls.key_name:
+            stub[cls.key_name] = key
+        if out[1] != stub:
+            return "over-long response (%d > %d) not replaced by the stub: %r" % (length, limit, str(out[1])[:300]), tag
+    elif str(out[1]) != str(full) or set(out[1]) != set(full):
+        return "response within the limit (%d <= %d) is not what was passed: %r" % (length, limit, str(out[1])[:300]), tag
+    return None, tag
+
+
+def gen_wide_case(rng):
+    cn = rng.choice(["make_fail", "make_pass", "make_info", "make_fingerprint", "make_response", "make_metadata",
+                     "vc12_keyed", "vc12_nokey"])
+    keyless = cn in ("make_metadata", "vc12_nokey")
+    key = None if keyless else rng.choice(["K1", {"k": "SUBKEY"}, {"k": "SUBKEY"}, "k é", {"b": "4b31"}, {"f": 1.0},
+                                           {"t": ["K"]}, {"k": ""}, {"o": "K"}, "K2"])
+    names = rng.sample(["a", "b", "n", "msg", "details", "é"], rng.randint(0, 3))
+    if rng.random() < 0.1:
+        names.append(rng.choice(["type", "error_key", "pass_key"]))
+    kw = [[n, gen_wide(rng)] for n in names]
+    c = {"kind": "mk-wide", "cls": cn, "key": key, "kw": kw, "limit": None}
+    cls, k, kwv = wide_act(c)
+    L = len(str(full_dict(cls, None if cn == "make_metadata" else k, kwv)))
+    r = rng.random()
+    if r < 0.75:
+        c["limit"] = max(0, rng.choice([L - 1, L, L + 1, L, 0, 5 * L]))
+    elif "pad" not in names:
+        # settings untouched: the payload is padded to 65535 - 1 / + 0 / + 1 characters of rendering
+        target = 65535 + rng.choice([-1, 0, 1])
+        c["kw"] = kw + [["pad", {"x": 0}]]
+        cls, k, kwv = wide_act(c)
+        L0 = len(str(full_dict(cls, None if cn == "make_metadata" else k, kwv)))
+        c["kw"][-1][1] = {"x": max(0, target - L0)}
+    else:
+        c["limit"] = L
+    return c
 
 
 # --------------------------------------------------------------------------- rule sets
@@ -1506,7 +1648,65 @@ def unordered_accounting(rs, label, resp, ref):
     return out
 
 
+KNOWN_RACE = "parallel-observer-race"
+
+
 def run_mode(rs, fails, cls_name, inc, par, graph, reference, ref_excs, lines=None, impl=None, kinds=None):
+    """run_mode_once; the pooled mode (incremental on the evaluator's thread pool) is the only one that evaluates on
+    several threads, and there Evaluator.observer iterates broker.instances while other threads insert into it: the
+    RuntimeError is swallowed by Broker.fire_observers and the outcome of the component being observed is lost (known
+    finding parallel-observer-race, timing dependent).  A pooled run that fails is therefore repeated: a failure that
+    persists over four runs is reported as it is; one that does not is an instance of the known finding."""
+    if not (inc and par):
+        return run_mode_once(rs, fails, cls_name, inc, par, graph, reference, ref_excs, lines, impl, kinds)
+    first = None
+    for attempt in range(4):
+        f2 = []
+        out = run_mode_once(rs, f2, cls_name, inc, par, graph, reference, ref_excs, lines, impl, kinds)
+        if not f2:
+            if first:
+                rs.stats["mode:pooled run failed once and passed when repeated"] = \
+                    rs.stats.get("mode:pooled run failed once and passed when repeated", 0) + 1
+                for desc, fd in first:
+                    fails.append((desc + " [in run 1 of %d pooled runs only]" % (attempt + 1), fd or KNOWN_RACE))
+            return out
+        first = first or f2
+    fails.extend(first)
+    return out
+
+
+def observe_race(rs, tries):
+    """witness of parallel-observer-race: pooled evaluations of the default group graph until Broker.fire_observers
+    logs the RuntimeError raised inside Evaluator.observer (timing dependent: may not show in `tries` runs)"""
+    seen = []
+
+    class Catch(logging.Handler):
+        def emit(self, rec):
+            if isinstance(rec.msg, RuntimeError) and "changed size during iteration" in str(rec.msg):
+                seen.append(str(rec.msg))
+    log = logging.getLogger("insights.core.dr")
+    h = Catch()
+    old_level, old_disable = log.level, logging.root.manager.disable
+    logging.disable(logging.NOTSET)
+    log.addHandler(h)
+    log.setLevel(logging.ERROR)
+    propagate, log.propagate = log.propagate, False
+    n = 0
+    try:
+        for n in range(1, tries + 1):
+            ev = SingleEvaluator(rs.broker(), stream=io.StringIO(), incremental=True)
+            ev.process(None, parallel=True)
+            if seen:
+                break
+    finally:
+        log.removeHandler(h)
+        log.setLevel(old_level)
+        log.propagate = propagate
+        logging.disable(old_disable)
+    return n, seen[:1]
+
+
+def run_mode_once(rs, fails, cls_name, inc, par, graph, reference, ref_excs, lines=None, impl=None, kinds=None):
     """one evaluator / formatter in one run mode on `graph` (None = the default group graph): the accounting oracle,
     the comparison with the serial run, and (SingleEvaluator, incremental, not parallel) the model"""
     case = rs.case
@@ -1702,7 +1902,152 @@ def _evaluate(rs, case, limit, lines, impl, kinds, fails, unfiltered, order0):
             # the formatter's own bookkeeping (JsonFormat has its own handle_result)
             account(rs, fails, type(fmt).__name__ + " " + opts, {"skips": own_skips, "system": {"metadata": fmt.metadata}},
                     own, mdkeys, exc_ids, b, limit, b.vorder, identity=True)
+        # ---- the text formatter: after a run line of the serial SingleEvaluator order so that the model's state is that run
+        if order0 is not None and case.get("text") is not False:
+            lines.append(rs.run_line(order0))
+            impl.append(None)
+            kinds.append("rerun")
+            guarded(fails, "text formatter", run_text, rs, case.get("text") or text_options(case), fails, lines, impl, kinds)
     return lines, impl, kinds, fails
+
+
+# --------------------------------------------------------------------------- the text formatter
+
+ANSI = re.compile("\x1b\\[[0-9;]*m")
+
+
+def text_options(case):
+    """the text formatter's options of a rule set, a function of the case (the generator's random stream is left alone)"""
+    h = zlib.crc32(J(case).encode("utf-8"))
+    show = [x for i, x in enumerate(SHOW_CHOICES) if (h >> (4 + i)) & 1] if (h >> 2) & 1 else []
+    raising = any((r.get("content") or {}).get("template", "").startswith("raises") for r in case["rules"])
+    return {"kind": "text", "missing": bool(h & 1), "fail_only": bool((h >> 1) & 1), "show": show,
+            "no_details": bool((h >> 10) & 1) or raising}
+
+
+def parse_text_args(f):
+    p = argparse.ArgumentParser()
+    p.add_argument("-p", "--plugins", default="")
+    text_format.HumanReadableFormatAdapter.configure(p)
+    argv = (["-m"] if f["missing"] else []) + (["-F"] if f["fail_only"] else []) + (["--no-details"] if f["no_details"] else [])
+    if f["show"]:
+        argv += ["-S"] + list(f["show"])
+    with contextlib.redirect_stderr(io.StringIO()):          # "Options conflict: -m and -F, drops -F"
+        return text_format.HumanReadableFormatAdapter(p.parse_args(argv))
+
+
+def typed_value(b, c):
+    """the type of the response a component has in the broker, None if it has none"""
+    if c in b:
+        v = b[c]
+        t = v.get("type") if isinstance(v, dict) else None
+        return t if isinstance(t, str) else None
+    return None
+
+
+def run_text(rs, f, fails, lines, impl, kinds):
+    """HumanReadableFormat through its adapter on a fresh broker; the oracle reads the broker of this very run:
+    every plain rule in it is counted once under its own type in the summary and printed once under its label iff the
+    options select its type; recorded exceptions of rules and conditions are counted"""
+    opts = "text formatter (options %s%s%s%s)" % ("-m " if f["missing"] else "", "-F " if f["fail_only"] else "",
+                                                  "--no-details " if f["no_details"] else "",
+                                                  "-S " + " ".join(f["show"]) if f["show"] else "")
+    k = "options:text%s%s%s%s" % (" -m" if f["missing"] else "", " -F" if f["fail_only"] else "",
+                                  " --no-details" if f["no_details"] else "", " -S" if f["show"] else "")
+    rs.stats[k] = rs.stats.get(k, 0) + 1
+    b = rs.broker()
+    buf = io.StringIO()
+    try:
+        adapter = parse_text_args(f)
+        adapter.preprocess(b)
+        fmt = adapter.formatter
+        if hasattr(fmt.stream, "write"):
+            fmt.stream = buf
+        # a second formatter on the same broker (as `insights-run -f text -s` has): both must account every rule
+        ev2 = SingleEvaluator(b, stream=io.StringIO())
+        ev2.preprocess()
+        dr.run(rs.graph, broker=b)
+    except Exception as ex:
+        fails.append(("%s raised %s before printing: %s" % (opts, type(ex).__name__, ex), None))
+        return
+    st2 = rs.canon_state(ev2, b)
+    lines.append(rs.run_line(b.vorder))
+    impl.append(st2)
+    kinds.append("state:co-registered")
+    rs.stats["text:with a SingleEvaluator on the same broker"] = rs.stats.get("text:with a SingleEvaluator on the same broker", 0) + 1
+    raised = None
+    try:
+        adapter.postprocess(b)
+    except Exception as ex:
+        raised = ex
+    if not (isinstance(adapter.show_rules, (list, tuple)) and all(isinstance(x, str) for x in adapter.show_rules)):
+        fails.append(("%s: the adapter selects %r" % (opts, adapter.show_rules), None))
+        return
+    plain = [i for i in rs.rule_ids if dr.get_component_type(rs.comps[i]) is plugins.rule]
+    # the option glue of the text adapter is the evaluator adapters' (model: adapterShow)
+    lines.append("adapter\t%d\t%d\t%s" % (f["missing"], f["fail_only"], ",".join(enc(x) for x in f["show"]) or "-"))
+    impl.append([senc(x) for x in adapter.show_rules])
+    kinds.append("adapter")
+    if list(adapter.show_rules) != spec_show(f) or bool(adapter.missing) != bool(f["missing"]):
+        fails.append(("%s: the adapter selects %r / missing=%r, the options say %r / %r" % (
+            opts, adapter.show_rules, adapter.missing, spec_show(f), f["missing"]), None))
+    answer = text_verdict(rs, f, opts, b, buf.getvalue(), raised, getattr(fmt, "responses", None), fails)
+    if answer is not None:
+        lines.append("text\t%d\t%s\t%s" % (f["missing"], ",".join(senc(x) for x in adapter.show_rules) or "-",
+                                            ",".join(str(i) for i in plain) or "-"))
+        kinds.append("text")
+        impl.append(answer)
+
+
+def text_verdict(rs, f, opts, b, out, raised, table, fails):
+    """the oracle on what the text formatter printed for the broker `b`; returns the canonical answer compared with
+    the model (None if the output could not be examined at all)"""
+    out = ANSI.sub("", out)
+    if not (isinstance(table, dict) and all(isinstance(t, str) and isinstance(getattr(v, "label", None), str)
+                                            and isinstance(getattr(v, "title", None), str) for t, v in table.items())):
+        fails.append(("%s: the table of labels is %r" % (opts, table), None))
+        return None
+    show = spec_show(f)
+    # the rules show_description walks: broker.get_by_type(rule) is the PLAIN rule type (derived types are not walked)
+    plain = [i for i in rs.rule_ids if dr.get_component_type(rs.comps[i]) is plugins.rule]
+    rows = [(i, typed_value(b, rs.comps[i])) for i in plain]
+    rows = [(i, t) for i, t in rows if t is not None]
+    selected = [(i, t) for i, t in rows if (f["missing"] and t == "skip") or (show and t in show)
+                or (not show and t not in ("skip", "none"))]
+    unlabelled = [t for i, t in selected if t not in table]
+    if raised is not None:
+        if isinstance(raised, KeyError) and unlabelled:
+            # a selected rule of a response type without a label: printit looks the label up (text.py, existing behaviour)
+            rs.stats["text:unlabelled type selected -> KeyError"] = rs.stats.get("text:unlabelled type selected -> KeyError", 0) + 1
+        else:
+            fails.append(("%s raised %s: %s" % (opts, type(raised).__name__, raised), None))
+        return {"raised": type(raised).__name__}
+    # what was printed
+    printed = re.findall(r"^\[([A-Z][A-Z ]*)\] (\S+.*)$", out, re.M)
+    summary = {}
+    tail = out.split("Rule Execution Summary")[-1] if "Rule Execution Summary" in out else ""
+    for t, v in table.items():
+        m = re.search(r"^" + re.escape(v.title) + r"(\d+)\s*$", tail, re.M)
+        summary[t] = int(m.group(1)) if m else None
+    rs.stats["text:summaries"] = rs.stats.get("text:summaries", 0) + 1
+    want_printed = sorted((table[t].label, rs.names[i]) for i, t in selected)
+    if sorted(printed) != want_printed:
+        fails.append(("%s: printed %r, the broker holds %r so that %r is expected" % (
+            opts, sorted(printed), [(rs.names[i], t) for i, t in rows], want_printed), None))
+    for t in table:
+        if t == "exception":
+            want = 0
+            for i, c in rs.comps.items():
+                ct = dr.get_component_type(c)
+                if isinstance(ct, type) and issubclass(ct, (plugins.rule, plugins.condition)) and typed_value(b, c) is None:
+                    want += len(b.exceptions.get(c, ())) if c in b.exceptions else 0
+        else:
+            want = len([1 for i, tt in rows if tt == t])
+        if summary.get(t) != want:
+            fails.append(("%s: the summary counts %r for %r, the broker holds %d (%r)" % (
+                opts, summary.get(t), t, want, [(rs.names[i], tt) for i, tt in rows]), None))
+    return {"counts": {senc(t): summary.get(t) for t in table if t != "exception"},
+            "printed": sorted([i, senc(t)] for i, t in selected)}
 
 
 def compare_answers(rs, kinds, impl, model):
@@ -1724,6 +2069,12 @@ def compare_answers(rs, kinds, impl, model):
                 mm = soften_state(canon_model_state(mm), a)
             elif k.startswith("report"):
                 mm = canon_model_report(mm)
+            elif k == "text":
+                mm = ({"raised": "KeyError"} if mm.get("printed") is None else
+                      {"counts": {t: n for t, n in mm["counts"]}, "printed": sorted(mm["printed"])})
+            if k == "rerun":                       # only re-establishes the model's state; compared elsewhere
+                out.append(None if isinstance(mm, dict) else (k, a, mm))
+                continue
             ok = J(mm) == J(a)
         out.append(None if ok else (k, a, mm))
     return out
@@ -2052,6 +2403,10 @@ def default_graph_child():
         for r in case["rules"]:
             k = "load-order:%s rules of type %s" % (case.get("load_order", "as-generated"), r.get("rtype", "rule"))
             stats[k] = stats.get(k, 0) + 1
+        if case.get("race_tries"):
+            n, seen = observe_race(rs, case["race_tries"])
+            stats["race:pooled runs of the default graph"] = n
+            stats["race:observed"] = seen
         stats["default-graph:components"] = len(dr.COMPONENTS[dr.GROUPS.single])
         stats["default-graph:subgraphs"] = len(list(dr.get_subgraphs(dr.COMPONENTS[dr.GROUPS.single])))
     except Exception as ex:
@@ -2082,6 +2437,166 @@ def collect_default_graph(p, timeout=300):
         if line.startswith("@@C12CHILD@@"):
             return json.loads(line[len("@@C12CHILD@@"):])
     return {"fails": [["the default-graph child printed no result (exit %s): %s" % (p.returncode, out[-600:]), None]], "stats": {}}
+
+
+# --------------------------------------------------------------------------- the command line entry point
+
+CLI_FORMATS = ["json", "yaml", "_json", "_yaml", "insights.formats._json", "insights.formats._yaml", "text",
+               "insights.formats.text"]
+
+
+def cli_case(case):
+    """insights.run makes its own broker: nothing can be seeded, so seeded bases become components that run; no IGNORE entries"""
+    c = json.loads(json.dumps(case))
+    for b in c["bases"]:
+        b["how"] = {"seed": "run", "seednone": "none"}.get(b["how"], b["how"])
+    # an IGNORE entry is not a dependency: whether it bites depends on the order the engine picks among unrelated
+    # components, which differs between the graph run() builds (and --parallel) and the reference evaluation
+    for r in c["rules"]:
+        r["ignore"] = []
+    c["fmts"] = []
+    return c
+
+
+def gen_cli_runs(rng, case, n):
+    runs = []
+    raising = any((r.get("content") or {}).get("template", "").startswith("raises") for r in case["rules"])
+    for i in range(n):
+        fmt = CLI_FORMATS[i % len(CLI_FORMATS)] if i < len(CLI_FORMATS) else rng.choice(CLI_FORMATS)
+        text = fmt.endswith("text")
+        show = rng.sample(SHOW_CHOICES, rng.randint(1, 4)) if rng.random() < 0.5 else []
+        runs.append({"fmt": fmt, "missing": rng.random() < 0.5, "fail_only": rng.random() < 0.3, "show": show,
+                     "render": (not text) and rng.random() < 0.3, "parallel": rng.random() < 0.25,
+                     "no_details": text and (raising or rng.random() < 0.5), "syslog": False})
+    return runs
+
+
+def cli_argv(case, f):
+    argv = ["insights-run", "--no-load-default", "-f", f["fmt"]]
+    argv += (["-m"] if f["missing"] else []) + (["-F"] if f["fail_only"] else []) + (["-r"] if f.get("render") else [])
+    argv += (["--no-details"] if f.get("no_details") else []) + (["--show-skips"] if case["store_skips"] else [])
+    argv += (["--parallel"] if f.get("parallel") else [])
+    if f["show"]:
+        argv += ["-S"] + list(f["show"])
+    return argv
+
+
+def broker_view(rs, b):
+    """per component: the type of the response in the broker (None: absent or no response) and the kinds of the
+    exceptions recorded against it"""
+    out = {}
+    for i, c in sorted(rs.comps.items()):
+        excs = list(b.exceptions.get(c, ())) if c in b.exceptions else []
+        out[rs.names[i] + "#%d" % i] = [typed_value(b, c), c in b, sorted(exc_kind(e) for e in excs)]
+    return out
+
+
+def cli_child():
+    """runs in a fresh interpreter whose sys.stdout was replaced by a buffer BEFORE insights was imported (the
+    formatters bind sys.stdout as their default stream at import): `insights.run(component=..., print_summary=True)`
+    with sys.argv set, i.e. what `insights-run -f FORMAT [-m] [-F] [-r] [-S ...] [--show-skips] [--parallel]` does
+    after it has loaded the plugins; what it prints and the broker it returns are held to a SingleEvaluator run of the
+    same components on a broker made by hand"""
+    data = json.load(sys.stdin)
+    case = data["case"]
+    buf, real = sys.stdout, sys.__stdout__
+    fails, stats = [], {}
+    try:
+        rs = RuleSet(case)
+        comps = [rs.comps[i] for i in sorted(rs.comps)]
+        with Limit(case["limit"]):
+            # reference: the evaluator API on a hand-made broker
+            b0 = rs.broker()
+            ev0 = SingleEvaluator(b0, stream=io.StringIO())
+            ref_raw = ev0.process(rs.graph)
+            ref_mdkeys = as_dict("reference SingleEvaluator", "metadata_keys", ev0.metadata_keys, [])
+            ref, p0 = sanitize_response("reference SingleEvaluator", ref_raw, ref_mdkeys)
+            for d in p0:
+                fails.append((d, None))
+            ref_view = broker_view(rs, b0)
+            table = None
+            for f in data["runs"]:
+                argv = cli_argv(case, f)
+                label = " ".join(argv)
+                k = "cli:-f %s" % f["fmt"]
+                stats[k] = stats.get(k, 0) + 1
+                for o in ("missing", "fail_only", "render", "parallel", "no_details"):
+                    if f.get(o):
+                        stats["cli:option " + o] = stats.get("cli:option " + o, 0) + 1
+                for sink in (buf, _TEXT_SINK):     # (the text module was imported with stdout pointing at _TEXT_SINK)
+                    if hasattr(sink, "truncate"):
+                        sink.seek(0)
+                        sink.truncate(0)
+                old_argv, sys.argv = sys.argv, argv
+                raised, broker = None, None
+                try:
+                    with contextlib.redirect_stderr(io.StringIO()):
+                        broker = insights.run(component=list(comps), print_summary=True)
+                except BaseException as ex:      # argparse leaves with SystemExit
+                    raised = ex
+                finally:
+                    sys.argv = old_argv
+                text = f["fmt"].endswith("text")
+                out = (_TEXT_SINK if text else buf).getvalue() if hasattr(buf, "getvalue") else ""
+                if text:
+                    if table is None:
+                        t0 = text_format.HumanReadableFormat(dr.Broker(), stream=io.StringIO())
+                        t0.preprocess()
+                        table = getattr(t0, "responses", None)
+                    if broker is None and raised is None:
+                        fails.append(("%s returned no broker" % label, None))
+                        continue
+                    # a KeyError for a selected rule of an unlabelled type leaves run() without a broker: judge by the reference
+                    probe = broker if isinstance(broker, dr.Broker) else b0
+                    text_verdict(rs, f, label, probe, out, raised, table, fails)
+                else:
+                    if raised is not None:
+                        fails.append(("%s raised %s: %s" % (label, type(raised).__name__, raised), None))
+                        continue
+                    try:
+                        shown_raw = yaml.unsafe_load(out) if "yaml" in f["fmt"] else json.loads(out)
+                        if not isinstance(shown_raw, dict):
+                            raise ValueError("printed %r" % out[:80])
+                    except Exception as ex:
+                        fails.append(("%s: the printed output cannot be read back (%s): %r" % (label, ex, out[:200]), None))
+                        continue
+                    # a metadata key may be named like a heading (covered in-process); here it is taken as printed
+                    own_keys = {k: shown_raw[k] for k in ref_mdkeys if k in shown_raw and not (
+                        isinstance(shown_raw[k], list) and shown_raw[k]
+                        and all(isinstance(x, dict) and "component" in x for x in shown_raw[k]))}
+                    shown, p2 = sanitize_response(label + ", the printed document", shown_raw, own_keys)
+                    for d in p2:
+                        fails.append((d, None))
+                    for desc in guarded(fails, label, oracle_formatter, rs, ref, shown, f, same_order=False):
+                        fails.append(("%s: %s" % (label, desc), None))
+                if not isinstance(broker, dr.Broker):
+                    if raised is None:
+                        fails.append(("%s returned %r, not a broker" % (label, broker), None))
+                    continue
+                view = broker_view(rs, broker)
+                if view != ref_view:
+                    diff = {n: (view[n], ref_view[n]) for n in view if view[n] != ref_view[n]}
+                    fails.append(("%s: the broker it returns differs from an evaluation of the same components with "
+                                  "store_skips=%r: (type, present, exceptions) %r" % (label, case["store_skips"], diff), None))
+                stats["cli:runs"] = stats.get("cli:runs", 0) + 1
+        stats.update({k: v for k, v in rs.stats.items() if k.startswith("text:")})
+    except Exception as ex:
+        import traceback
+        fails.append(("the command line run raised %s: %s (%s)" % (type(ex).__name__, ex,
+                                                                   traceback.format_exc().strip().splitlines()[-3].strip()), None))
+    real.write("\n@@C12CHILD@@" + json.dumps({"fails": fails, "stats": stats}, default=repr) + "\n")
+    real.flush()
+
+
+def spawn_cli(case, runs):
+    import subprocess
+    from harness.common import VERIF
+    code = ("import sys, io; sys.stdout = io.StringIO(); sys.path[:0] = [%r, %r]; sys.dont_write_bytecode = True; "
+            "from harness import c12; c12.cli_child()" % (VERIF, REPO))
+    p = subprocess.Popen([sys.executable, "-c", code], stdin=subprocess.PIPE, stdout=subprocess.PIPE, stderr=subprocess.STDOUT)
+    p.stdin.write(json.dumps({"case": case, "runs": runs}).encode("utf-8"))
+    p.stdin.close()
+    return p
 
 
 # --------------------------------------------------------------------------- known finding witness
@@ -2211,7 +2726,18 @@ def run(chk):
                  "registered no plain rule — the rule types are registered derived-first, plain-first or only-derived "
                  "(load-order:* counts) and every class evaluates the case's own graph serially and incrementally as well as "
                  "graph=None")
+    chk.rule += ("; round 10: every rule set is also printed by the text formatter built by HumanReadableFormatAdapter from "
+                 "-m / -F / -S / --no-details options that are a function of the case (options:text* counts; details are "
+                 "rendered only when no template of the set raises), compared with the model's walk over the broker; 5 "
+                 "(thorough 40) rule sets without seeded components go through insights.run(component=..., print_summary=True) "
+                 "with sys.argv set, 9 (16) option sets each over -f json / yaml / _json / _yaml / insights.formats._json / "
+                 "._yaml / text / insights.formats.text, -m, -F, -r, -S, --show-skips, --parallel, --no-details, in child "
+                 "interpreters whose stdout is replaced before insights is imported (cli:* counts); 1500 (40000) constructor "
+                 "calls with floats incl. nan / inf, bytes, tuples, sets, nested dicts and lists, values json cannot serialise, "
+                 "lone surrogates, non-BMP text, str-subclass and non-str keys, limit steered to length-1 / length / length+1 or "
+                 "settings untouched with the payload padded to 65534 / 65535 / 65536 (mk-wide:* counts)")
     chk.assumptions = [
+        "the text formatter walks broker.get_by_type(rule), the exact rule type: the model is asked about plain rules only; its rendering of details is outside the model",
         "the body of a rule is a fixed action (it does not look at its arguments); argument binding is C02's subject",
         "repr() of str is modelled for ASCII exactly and takes code points >= 0xa1 other than U+00AD as printable; values inside responses are None/bool/int/str/list of str",
         "a rule body raising MissingRequirements / BaseException, a rule already present in a seeded broker, and custom Response subclasses with response_type 'metadata_key' are outside the model",
@@ -2266,11 +2792,24 @@ def run(chk):
             else:
                 r["rtype"] = "rule" if j < k else derived
         c["load_order"] = order_kind
+        if i == 0:
+            c["race_tries"] = 60 if quick else 400
         child_cases.append(c)
     children = []
     for i, c in enumerate(child_cases):
         if i < 6:
             children.append((c, spawn_default_graph(c)))
+
+    # ---- the command line entry point: children, collected at the end (generated from a generator of their own so that
+    # the cases of the other streams stay what they were)
+    import random
+    rng_cli = random.Random("C12-cli/%s" % getattr(chk, "seed", 0))
+    n_cli = 5 if quick else 40
+    cli_cases = []
+    for i in range(n_cli):
+        c = cli_case(gen_case(rng_cli, quick, islands=rng_cli.random() < 0.5))
+        cli_cases.append((c, gen_cli_runs(rng_cli, c, 9 if quick else 16)))
+    cli_children = [(c, runs, spawn_cli(c, runs)) for c, runs in cli_cases[:5]]
 
     # ---- 2. str(dict) rendering
     cases, lines, impl = [], [], []
@@ -2323,6 +2862,17 @@ def run(chk):
         mm.append(J(j))
     chk.compare("constructors", cases, [J(a) for a in impl], mm)
     chk.sample({"constructor": cases[7], "impl": impl[7]})
+
+    # ---- 3b. constructors on values of every shape (oracle only: the model's values are None/bool/int/str/list of str)
+    rng_wide = random.Random("C12-wide/%s" % getattr(chk, "seed", 0))
+    for _ in range(1500 if quick else 40000):
+        c = gen_wide_case(rng_wide)
+        why, tag = guarded([], "wide constructor", run_wide, c) or ("the oracle could not examine the constructor", "?")
+        chk.count("mk-wide:" + tag)
+        chk.count("mk-wide-limit:" + ("default" if c["limit"] is None else "steered"))
+        chk.case(("mk-wide", J(c)), tag != "full" or bool(c["kw"]))
+        if why:
+            chk.failure(why, c)
 
     # ---- 4. parameter names of Response.__init__ used as keyword arguments never produce a response
     for cn in ("make_fail", "make_pass"):
@@ -2449,14 +2999,14 @@ def run(chk):
         diffs = compare_answers(rs, kinds, impl, ans)
         for k, d in zip(kinds, diffs):
             name = k.split(":")[0] if k.startswith(("state", "report", "istate")) else k
-            if name == "decl":
+            if name in ("decl", "rerun"):
                 if d is not None:
                     s = n_cmp.setdefault("driver-declarations", [0, 0, None])
                     s[1] += 1
                     s[2] = s[2] or {"case": case, "answer": d[2]}
                 continue
             stream = {"state": "ruleset-state", "report": "formatter-output", "adapter": "ruleset-adapter",
-                      "istate": "insights-decoration-state"}[name]
+                      "istate": "insights-decoration-state", "text": "text-summary"}[name]
             if k == "state:history":
                 stream = "history-state"
             if k == "state:incremental":
@@ -2484,6 +3034,7 @@ def run(chk):
             chk.tie_broken("correspondence:" + stream, "%d of %d answers differ" % (bad, n), first)
     # ---- 8. the default-graph children
     pending = list(child_cases[len(children):])
+    race_seen = []
     while children:
         c, proc = children.pop(0)
         res = collect_default_graph(proc)
@@ -2493,13 +3044,40 @@ def run(chk):
         for desc, finding in res["fails"]:
             chk.failure(desc, {"kind": "default-graph", "case": c}, finding=finding)
         for k, v in res["stats"].items():
-            if k.startswith("default-graph:"):
+            if k.startswith("race:"):
+                if k == "race:observed" and v:
+                    race_seen.append(v[0])
+                chk.extra.setdefault("parallel-observer-race", {})[k] = v
+            elif k.startswith("default-graph:"):
                 chk.extra[k] = v
             elif k.startswith("load-order:"):
                 chk.count(k, v)
             else:
                 chk.count("default-graph " + k, v)
         chk.case(("default-graph", J(c)), True)
+    # ---- 9. the command line children
+    cli_pending = list(cli_cases[len(cli_children):])
+    while cli_children:
+        c, runs, proc = cli_children.pop(0)
+        res = collect_default_graph(proc)
+        if any("--parallel" in str(d) for d, _ in res["fails"]):
+            # --parallel evaluates on a thread pool (known finding parallel-observer-race is timing dependent): a
+            # failure of such a run that does not show again in a second child is an instance of it
+            again = set(str(d) for d, _ in collect_default_graph(spawn_cli(c, runs))["fails"])
+            res["fails"] = [(d, fd if (str(d) in again or "--parallel" not in str(d)) else (fd or KNOWN_RACE))
+                            for d, fd in res["fails"]]
+        if cli_pending:
+            c2, r2 = cli_pending.pop(0)
+            cli_children.append((c2, r2, spawn_cli(c2, r2)))
+        for desc, finding in res["fails"]:
+            chk.failure(desc, {"kind": "cli", "case": c, "runs": runs}, finding=finding)
+        for k, v in res["stats"].items():
+            chk.count(k, v)
+        chk.case(("cli", J(c), J(runs)), True)
+    chk.witnesses.append({"id": KNOWN_RACE, "reproduces": bool(race_seen), "observed": race_seen[:1],
+                          "note": "timing dependent: pooled evaluations of the default graph in one child interpreter"})
+    if race_seen:
+        chk.finding_reproduced(KNOWN_RACE)
     hs = [x for x in segments if x[0].get("kind") == "history"]
     if hs:
         chk.sample({"history": {k: v for k, v in hs[0][0].items() if k != "case"}, "rules": len(hs[0][0]["case"]["rules"]),
@@ -2594,6 +3172,17 @@ def replay(data):
         res = collect_default_graph(spawn_default_graph(c["case"]))
         for desc, finding in res["fails"]:
             print("oracle:", str(desc)[:1200], "[known finding %s]" % finding if finding else "")
+            if finding is None:
+                bad = True
+    elif kind == "mk-wide":
+        why, tag = run_wide(c)
+        print("outcome:", tag)
+        print("oracle:", why)
+        bad = why is not None
+    elif kind == "cli":
+        res = collect_default_graph(spawn_cli(c["case"], c["runs"]))
+        for desc, finding in res["fails"]:
+            print("oracle:", str(desc)[:1500], "[known finding %s]" % finding if finding else "")
             if finding is None:
                 bad = True
     elif kind == "yaml-adapter":
